@@ -68,7 +68,7 @@ add("C18", "TestC18", "exploration",
     "Trusted: reference model; legacy writers (validated byte-for-byte against the archived fixtures).", RAPID, "DESIGN.md §4 C18")
 
 add("C19", "TestC19", "exploration",
-    dict(cases=16000, shards=8, extra=[dict(test="TestC19Regular", shards=4)]), dict(cases=40000, shards=16, timeout_s=3000, extra=[dict(test="TestC19Regular", shards=8, timeout_s=3000)]),
+    dict(cases=16000, shards=8, extra=[dict(test="TestC19Regular", shards=4), dict(test="TestC19IndependentReaders", shards=1)]), dict(cases=40000, shards=16, timeout_s=3000, extra=[dict(test="TestC19Regular", shards=8, timeout_s=3000), dict(test="TestC19IndependentReaders", shards=1, timeout_s=3000)]),
     "cases as C01 with integer (or no) values, weighted towards regular trees that produce short nodes of a targeted table size and towards 257-bit nodes; non-trivial = the trie contains at least one table-compressed short node",
     "Generated-input search: String() must not panic, must render every node id exactly once, its leaf lines top to bottom must carry the retained values in key order, the labels and steps on the path to the j-th leaf must spell the bits of the j-th retained key (documented line format <label>-><id>+<step>*<fanout>=<value>), and a reloaded trie must render identically.",
     "Trusted: the rendering grammar of openacid/low/tree and the documented line format.", RAPID, "DESIGN.md §4 C19")
